@@ -1,5 +1,6 @@
 import MdkVerif.Model.Crash
 import MdkVerif.Model.CrashCore
+import MdkVerif.Model.CrashSeq
 import MdkVerif.Proofs.Crash
 /-
   C12 — A crash at any storage step leaves a recoverable database (storage-level part).
@@ -302,5 +303,92 @@ theorem C12_core_full_false : ¬ C12_core_full := by
   intro h
   have := h .commit coreDemo 4 (by simp [coreFresh]; decide)
   revert this; decide
+
+/-! ## every entry point of the regenerated table (`Model.CrashSeq`)
+
+`Generated.writeSeq` is re-extracted from the source on every run; everything below is a statement about that
+table.  A store is one of `CrashSeq.freshStores case`: the store on which the call runs for the first time, with
+the exporter secret of the current epoch cached or not (the only pre-state unknown the effects depend on). -/
+
+open CrashSeq in
+/-- **classify_sound_all.**  For EVERY classified case of the regenerated table, every success path, every proper
+    prefix `k` and every fresh store: the decision procedure `classifyG` (the one `vlib/crashweng.py` applies to the
+    real store) calls the crash point harmless exactly when it is recovered — a re-delivered event ends in the
+    uninterrupted run's observable state, an interrupted local call leaves a usable store — and the class does not
+    depend on which fresh store it is. -/
+theorem classify_sound_all (case : Nat) (paths : List (List Nat)) (hc : (case, paths) ∈ Generated.writeSeq)
+    (hm : CrashSeq.modelled case = true) (p : List Nat) (hp : p ∈ paths) (k : Nat)
+    (hk : k < (CrashCore.expand case p).length) (d : CrashCore.Db) (hd : d ∈ CrashSeq.freshStores case) :
+    (CrashSeq.classifyG (CrashSeq.modeOf case) (CrashCore.expand case p) k d).harmless
+      = CrashSeq.recoveredG (CrashSeq.modeOf case) (CrashCore.expand case p) k d ∧
+    CrashSeq.classifyG (CrashSeq.modeOf case) (CrashCore.expand case p) k d
+      = CrashSeq.classifyG (CrashSeq.modeOf case) (CrashCore.expand case p) k (CrashSeq.freshStore case false) := by
+  have h : CrashSeq.soundAll = true := by decide
+  unfold CrashSeq.soundAll at h
+  rw [List.all_eq_true] at h
+  have h1 := h (case, paths) (List.mem_filter.mpr ⟨hc, hm⟩)
+  rw [List.all_eq_true] at h1
+  have h2 := h1 p hp
+  rw [List.all_eq_true] at h2
+  have h3 := h2 k (List.mem_range.mpr hk)
+  rw [List.all_eq_true] at h3
+  have h4 := h3 d hd
+  unfold CrashSeq.soundAt at h4
+  simp only [Bool.and_eq_true, beq_iff_eq] at h4
+  exact h4
+
+/-- **unrecoverable_prefixes.**  The exact set of (case, path, number of effects performed, mechanism) of the
+    regenerated table at which a process death is NOT recovered.  A source change that opens a new such prefix — or
+    closes one — changes this list: the obligation has a name. -/
+theorem unrecoverable_prefixes :
+    CrashSeq.openPrefixes =
+      [(0, 0, 2, .decryptConsumed), (0, 0, 3, .msgSavedNoRecord), (0, 0, 4, .dedupBlocks), (0, 1, 2, .decryptConsumed),
+       (1, 0, 2, .decryptConsumed), (1, 0, 3, .snapshotLeft), (1, 0, 4, .tornMerge), (1, 0, 5, .tornMerge),
+       (4, 0, 2, .decryptConsumed), (5, 0, 2, .decryptConsumed), (5, 0, 3, .decryptConsumed), (5, 1, 2, .decryptConsumed),
+       (14, 0, 2, .tornAccept),
+       (23, 0, 1, .pendingLost), (23, 0, 2, .tornMerge), (23, 1, 1, .pendingLost), (23, 1, 2, .tornMerge)] := by decide
+
+/-- **unrecoverable_signatures.**  Mechanism × call kind of the open prefixes: the open crash findings of
+    known_findings.jsonl (`<mechanism>:<call>`; `./check C12` compares the two lists: `tie:c12-open-findings`).
+    Call kinds: 0 process_application, 1 process_commit, 2 process_proposal, 4 accept_welcome, 11 merge_pending_commit. -/
+theorem unrecoverable_signatures :
+    CrashSeq.openSignatures =
+      [(.msgSavedNoRecord, 0), (.dedupBlocks, 0), (.decryptConsumed, 0), (.decryptConsumed, 1), (.snapshotLeft, 1), (.tornMerge, 1),
+       (.decryptConsumed, 2), (.tornAccept, 4), (.pendingLost, 11), (.tornMerge, 11)] := by decide
+
+/-- every other classified entry point — process_welcome (both cases), create_message, add_members, remove_members,
+    update_group_data, self_update, leave_group, clear_pending_commit, the failure-recording paths, the start-up
+    prune and the step functions — has NO unrecoverable prefix -/
+theorem other_entry_points_recoverable :
+    ∀ x ∈ CrashSeq.allPrefixes, x.1 ∉ [0, 1, 4, 5, 14, 23] → x.2.2.2.harmless = true := by decide
+
+def coreClass : CrashCore.Class → CrashSeq.ClassG
+  | .recoverable => .recoverable
+  | .decryptConsumed => .decryptConsumed
+  | .msgSavedNoRecord => .msgSavedNoRecord
+  | .dedupBlocks => .dedupBlocks
+  | .snapshotLeft => .snapshotLeft
+  | .tornMerge => .tornMerge
+  | .appliedNoRecord => .appliedNoRecord
+  | .pendingLost => .pendingLost
+
+/-- the generic procedure agrees with the table of the four calls whose prefix theorems above hold for EVERY store -/
+theorem generic_agrees_with_core (kind : CrashCore.Kind) (k : Nat) (hk : k < (CrashCore.writes kind).length) :
+    CrashSeq.classifyG (CrashSeq.modeOf kind.case) (CrashCore.writes kind) k (CrashSeq.freshStore kind.case false)
+      = coreClass (CrashCore.classify kind k) := by
+  cases kind with
+  | application =>
+    have : k = 0 ∨ k = 1 ∨ k = 2 ∨ k = 3 ∨ k = 4 := by simp [writes_application] at hk; omega
+    rcases this with e | e | e | e | e <;> subst e <;> decide
+  | commit =>
+    have : k = 0 ∨ k = 1 ∨ k = 2 ∨ k = 3 ∨ k = 4 ∨ k = 5 ∨ k = 6 := by simp [writes_commit] at hk; omega
+    rcases this with e | e | e | e | e | e | e <;> subst e <;> decide
+  | welcome =>
+    have : k = 0 ∨ k = 1 ∨ k = 2 ∨ k = 3 := by simp [writes_welcome] at hk; omega
+    rcases this with e | e | e | e <;> subst e <;> decide
+  | merge =>
+    have : k = 0 ∨ k = 1 ∨ k = 2 := by simp [writes_merge] at hk; omega
+    rcases this with e | e | e <;> subst e <;> decide
+
 
 end MdkVerif.Props.C12
